@@ -154,6 +154,30 @@ def commuted_factors_tail(plan):
         plan["body"].append({"s": "let", "e": e, "try": True})
 
 
+def dead_table_tail(plan):
+    """One run in ten ends with a table of public constants that is read at a secret index inside a region that is
+    (usually) not taken - the index may be anything there, negative included - and the value read is used in a
+    product (draws from a generator of its own)."""
+    if plan["cfg"].get("max_nesting", 0) < 1:
+        return
+    r2 = _random.Random("dead-table/%s" % P.plan_digest(plan))
+    if r2.random() > 0.1:
+        return
+    n_i = sum(1 for i in plan["inputs"] if i["t"] == "I")
+    n_b = sum(1 for i in plan["inputs"] if i["t"] == "B")
+    n_a = sum(1 for s_ in plan["body"] if s_["s"] in ("array", "aderive"))
+    size = r2.randrange(2, 6)
+    plan["inputs"].append({"kind": "priv", "t": "I", "v": r2.choice([-1, -2, -size, size, size + 3, 0, 1])})
+    plan["inputs"].append({"kind": "priv", "t": "B", "v": r2.choice([0, 0, 0, 1])})
+    ix, c = {"ref": n_i, "t": "I"}, {"ref": n_b, "t": "B"}
+    plan["body"].append({"s": "array", "els": [{"k": r2.choice([3, 5, 7, 11, 2]), "t": "I"} for _ in range(size)]})
+    read = {"call": "aget", "arr": n_a, "ix": ix, "t": "I"}
+    body = [{"s": "let", "e": {"op": "*", "a": read, "b": r2.choice([read, {"ref": 0, "t": "I"}]), "t": "I"}, "try": True}]
+    if r2.random() < 0.5:
+        body.append({"s": "assert", "kind": "lt", "args": [read, {"k": 100, "t": "I"}], "try": True})
+    plan["body"].append({"s": "guarded", "cond": c, "body": body, "try": True})
+
+
 def boundary_region_tail(plan):
     """One run in eight ends with a region guarded by a secret condition (usually true) in which operands at the
     edges of the signed bitlength range meet in comparisons, shifts and bit operations: the Python-level self check of
@@ -208,6 +232,7 @@ class TraceCheck:
         late_modulus_tail(plan)
         boundary_region_tail(plan)
         commuted_factors_tail(plan)
+        dead_table_tail(plan)
         return {"plan": plan, "faults": draw_faults(rng, self.fault_kinds, plan)}
 
     def execute(self, case):
@@ -2047,7 +2072,8 @@ EXIT_MODES = [("end", None), ("sys_exit", EXIT_ARGS), ("raise_SystemExit", EXIT_
               ("uncaught_assert", None), ("uncaught_in_guard", None), ("uncaught_in_dead_guard_user", None),
               ("uncaught_in_snark", None), ("uncaught_in_finally", None), ("keyboard_interrupt", None),
               ("caught_exit_then_end", ["0", "3", "'msg'"]), ("caught_error_then_end", None),
-              ("os__exit", ["0", "1"]), ("exit_in_guard", ["0", "3"]), ("fork_worker", None)]
+              ("os__exit", ["0", "1"]), ("exit_in_guard", ["0", "3"]), ("fork_worker", None),
+              ("exit_in_open_block", ["0", "", "3"]), ("end_in_open_loop", ["0", "2"])]
 
 ARTEFACTS = {
     "snarkjs": ("witness.wtns", "circuit.r1cs"),
@@ -2934,8 +2960,13 @@ class BlockGen:
             self.lists["l0"] = [rng.randrange(2, 4)]
         if rng.random() < 0.5:
             self.lists["m0"] = [2, rng.randrange(1, 3)]
+        # a matrix held as an Array of Arrays (cells written with public indices inside blocks)
+        self.array_names = set()
+        if rng.random() < 0.25:
+            self.lists["a0"] = [rng.randrange(2, 4), 2]
+            self.array_names.add("a0")
         if self.small:
-            self.names, self.lists = self.names[:1], {}
+            self.names, self.lists, self.array_names = self.names[:1], {}, set()
         # plain Python lists outside the BranchingValues object that get bound to the list variable l0 as a whole
         # (`_.best = offer`); l0 is then never written cell by cell (Python-level aliasing is the caller's business)
         self.ext = ["e0", "e1"] if ("l0" in self.lists and rng.random() < 0.5) else []
@@ -3137,7 +3168,8 @@ class BlockGen:
                     return {"list": [({"ref": r.randrange(0, 8), "t": "I"} if r.random() < 0.4 else
                                       {"k": r.choice([0, 1, 2, 3, 9])}) for _ in range(d[0])]}
                 return {"list": [lit(d[1:]) for _ in range(d[0])]}
-            body.append({"s": "tracked_init", "name": nm, "e": lit(dims)})
+            body.append({"s": "tracked_init", "name": nm, "e": dict(lit(dims), array=True) if nm in self.array_names
+                         else lit(dims)})
         for nm in self.ext:
             body.append({"s": "ext_list", "name": nm, "e": lit(self.lists["l0"])})
         for _ in range(r.randrange(1, 3 if self.small else 5)):
@@ -3403,7 +3435,14 @@ class C15(ProverCheck):
             inputs.append({"kind": rng.choice(["priv", "pub"]), "t": "I", "v": v})
             alt.append(v)
 
+        flags_in_array = rng.random() < 0.15
+        if flags_in_array:
+            inputs.append({"kind": "priv", "t": "B", "v": rng.randrange(2)})     # a record: flags next to numbers
+            alt.append(inputs[-1]["v"])
+
         def elem():
+            if flags_in_array and rng.random() < 0.35:
+                return {"ref": 0, "t": "B"}
             if rng.random() < 0.5:
                 return {"ref": n_ix + rng.randrange(n_el), "t": "I"}
             return {"k": rng.choice([0, 1, 2, 3, 4, 9, -3])}
@@ -3698,6 +3737,8 @@ class C17(TraceCheck):
                     _collect_leaves(a, leaves, {nm: val for nm, val, lv in shared})
             ret = self.gen_ret(rng, rng.choice([0, 1, 2]), leaves, [6])
             st = {"s": "snark_call", "args": args, "ret": ret, "try": True}
+            if rng.random() < 0.3:
+                st["log"] = True          # the body formats its arguments (repr / str of every leaf)
             if rng.random() < 0.08:
                 st["kwargs"] = True
             if n_conds and rng.random() < 0.35:
@@ -4249,7 +4290,8 @@ class QapRun:
                  "importcomm": b.importcomm, "__inputs__": self.inputs,
                  "__step__": lambda *a: None, "__enter__": lambda *a: None, "__leave__": lambda *a: None,
                  "__caught__": lambda k, e, m=(): self.caught.append((k, type(e).__name__, str(e)[:80])),
-                 "__CAUGHT__": Exception, "__set_ie__": lambda v: None, "__cv__": lambda c: 0}
+                 "__CAUGHT__": Exception, "__set_ie__": lambda v: None, "__cv__": lambda c: 0,
+                 "__valret__": lambda o, r: None}
 
             def ckpt():
                 # an explicit backend.prove() in the middle of the script; the one at exit follows
@@ -4578,6 +4620,8 @@ class C12(TraceCheck):
             if subqaps[-1]["tmpl"] in (6, 7):
                 subqaps[-1]["nargs"] = 0
             r3 = rng.random()
+            if 0.12 <= r3 < 0.16:
+                subqaps[-1]["tmpl"], subqaps[-1]["nargs"] = 12, 2      # a procedure: arguments only, returns None
             if r3 < 0.12:
                 # boolean-typed arguments / results, bodies that may raise
                 subqaps[-1]["tmpl"], subqaps[-1]["nargs"] = (9 if r3 < 0.05 else 10 if r3 < 0.09 else 11), 2
